@@ -127,6 +127,8 @@ type Path struct {
 	nextObj  int
 	knownPred map[string]*Term
 	curFrame *Frame
+	clockFree bool
+	timerOf  map[*Value]*VTimer
 }
 
 func (e *Engine) newPath(sol *Solver, prefix []byte) *Path {
@@ -134,7 +136,7 @@ func (e *Engine) newPath(sol *Solver, prefix []byte) *Path {
 		emitted: map[*Term]bool{}, declared: map[string]bool{}, pcSet: map[*Term]bool{},
 		globals: map[*ssa.Global]*Value{}, pkgInit: map[*ssa.Package]int{},
 		names: map[string]int{}, mutexes: map[*Value]int{}, onceDone: map[*Value]bool{},
-		ghost: map[string]Value{}, knownPred: map[string]*Term{},
+		ghost: map[string]Value{}, knownPred: map[string]*Term{}, timerOf: map[*Value]*VTimer{},
 	}
 	p.res = &PathResult{Reached: map[string]int{}, Asserts: map[string]int{}, Funcs: map[*ssa.Function]bool{}, Stubs: map[string]bool{}}
 	return p
